@@ -472,8 +472,21 @@ func randWebpDesc(r *rng, kind string, icc []byte) *webpDesc {
 		d.xscale, d.yscale = byte(r.intn(4)), byte(r.intn(4))
 	case "VP8L":
 		d.w, d.h = boundary32(r, 14), boundary32(r, 14)
+		// the fields store the dimension minus one: the largest legal value is one more than the field's maximum
+		if r.intn(5) == 0 {
+			d.w = 1 << 14
+		}
+		if r.intn(5) == 0 {
+			d.h = 1 << 14
+		}
 	default:
 		d.w, d.h = boundary32(r, 24), boundary32(r, 24)
+		if r.intn(5) == 0 {
+			d.w = 1 << 24
+		}
+		if r.intn(5) == 0 {
+			d.h = 1 << 24
+		}
 		d.icc = icc
 	}
 	return d
@@ -646,7 +659,26 @@ func mlucTag(recs []mlucRec, strOrder []int, share map[int]int, recordSize int, 
 
 func randText(r *rng, n int) []uint16 {
 	var runes []rune
+	// one text in three is drawn from a single repertoire: plain ASCII, Latin-1 (every unit below U+0100, some
+	// at or above U+0080: "Café Monitor 27°"), or one script — not a uniform mixture
+	mode := r.intn(9)
 	for i := 0; i < n; i++ {
+		if mode == 0 {
+			runes = append(runes, rune(0x20+r.intn(0x5f)))
+			continue
+		}
+		if mode == 1 {
+			if i == 0 || r.intn(4) == 0 {
+				runes = append(runes, rune(0xa0+r.intn(0x60)))
+			} else {
+				runes = append(runes, rune(0x20+r.intn(0x5f)))
+			}
+			continue
+		}
+		if mode == 2 {
+			runes = append(runes, rune(0x80+r.intn(0x80)))
+			continue
+		}
 		switch r.intn(4) {
 		case 0:
 			runes = append(runes, rune(0x20+r.intn(0x5f)))
